@@ -72,14 +72,15 @@ def sum_term_shape(k):
     return None
 
 
-def linear_forms(chk, repo, rule='R01.1', rule_try='R01.7'):
+def linear_forms(chk, repo, rule='R01.1', rule_try='R01.7',
+                 only=('get_CpoR', 'get_HoRT', 'get_SoR')):
     pset, _, est = find_registration(repo)
     methods = repo.methods(GD, est)
     positions = set()
 
     # ---- R01.1 linear form -------------------------------------------
     n_inst = 0
-    for mname in ('get_CpoR', 'get_HoRT', 'get_SoR'):
+    for mname in only:
         if mname not in methods:
             raise AnalysisError('estimator %s lacks %s' % (est, mname))
         f = methods[mname]
@@ -131,9 +132,9 @@ def linear_forms(chk, repo, rule='R01.1', rule_try='R01.7'):
                    what='%s is the count-weighted sum of the constituents\' '
                         'own %s at the same T' % (mname, mname),
                    found=found, required=required)
-    chk.need(rule, n_inst, 3, 'estimator methods')
+    chk.need(rule, n_inst, len(only), 'estimator methods')
     if len(positions) > 1:
-        chk.ob(rule, False, GD, methods['get_CpoR'],
+        chk.ob(rule, False, GD, methods[only[0]],
                key='tuple-order-agreement',
                what='the three methods destructure self.correlations '
                     'elements differently', found=str(sorted(positions)))
